@@ -19,13 +19,19 @@ RULE = ('a case = constructor arguments of UDPListener (equipment id, version, d
         'x a scripted socket delivering 0-7 datagrams (discovery requests in several spellings, other JSON objects, '
         'arrays, strings, numbers, literals, malformed JSON, invalid UTF-8, empty, longer than the receive buffer, '
         'socket errors) from 4 sender addresses; the real UDPListener runs on a fake socket module (thorough: also on '
-        'real loopback UDP sockets); non-trivial = at least one datagram sent or received; distinct = distinct case')
+        'real loopback UDP sockets); nested / very long datagrams around the receive size and around the measured '
+        'nesting limit of json.loads; server cases: the real Server.run with 1-4 configured interfaces (tcp://, ws://, '
+        'bare port) whose fake interface classes open / fail / hang until the start-up time-out in a scripted order, '
+        'the responder it creates runs on the fake socket; non-trivial = at least one datagram sent or received or '
+        'an interface thread event; distinct = distinct case')
 ASSUMPTIONS = [
     'equipment id, version and description are strings of Unicode scalar values (a lone surrogate makes str.encode raise in the constructor; outside the domain)',
     'interface uris have the form <scheme>://<decimal port>, port 1..65535 for tcp (what TCPServer can bind); tcp://0 (OS-chosen port, advertised as 0) is outside the domain',
     'json.loads / str.encode / bytes.decode are CPython: the result of json.loads is supplied to the model with each datagram, UTF-8 and the JSON string escaper are modelled and compared byte for byte',
     'a datagram longer than the receive buffer is cut by the kernel; the fake socket cuts at the size the code asks for',
     'socket errors other than on recvfrom (sendto failing, e.g. unreachable broadcast address) are not modelled',
+    'json.loads raises only ValueErrors on text with fewer nested brackets than the measured limit (Gen constant json_depth_limit; checked on every datagram of every case)',
+    'Server.run start-up: an interface that was opened stays open until shutdown (serve_forever blocks); interface classes are replaced by fakes that open / fail / hang as scripted, the 12 s time-out is cut short by a MultiEvent subclass once all scripted events happened; _processCfg is stubbed',
 ]
 
 LIMIT = 508          # from the property text
@@ -33,12 +39,26 @@ ADDRS = [['10.1.0.1', 40001], ['10.1.0.2', 40002], ['192.168.7.9', 5], ['10.1.0.
 BCAST_IP = '255.255.255.255'
 
 
+_CONST = {}
+
+
 def _consts():
-    try:
+    """receive size of run() as the translator reads it (1024 when it cannot)"""
+    if 'recv' not in _CONST:
+        try:
+            from translator import facts_C19
+            _CONST['recv'] = int(facts_C19.recv_bufsize()[1].split('%')[0])
+        except Exception:
+            _CONST['recv'] = 1024
+    return _CONST['recv']
+
+
+def json_limit():
+    """nesting depth from which json.loads of this interpreter raises RecursionError (measured, not assumed)"""
+    if 'limit' not in _CONST:
         from translator import facts_C19
-        return int(facts_C19.recv_bufsize()[1].split('%')[0])
-    except Exception:
-        return 1024
+        _CONST['limit'] = facts_C19.measure_json_depth_limit()
+    return _CONST['limit']
 
 
 # ------------------------------------------------------------------ implementation driver
@@ -64,7 +84,10 @@ def _fake_socket_module(env):
             env['bound'] = [addr[0], addr[1]]
 
         def sendto(self, data, addr):
-            env['events'].append({'i': env['consumed'] - 1, 'hex': bytes(data).hex(), 'to': [addr[0], addr[1]]})
+            ev = {'i': env['consumed'] - 1, 'hex': bytes(data).hex(), 'to': [addr[0], addr[1]]}
+            if 'open_tcp' in env:
+                ev['open'] = env['open_tcp']()       # server cases: tcp ports listened on right now
+            env['events'].append(ev)
             return len(data)
 
         def recvfrom(self, n):
@@ -104,9 +127,11 @@ def _listener_fields(lst):
 def run_case(case):
     if case.get('real'):
         obs = _run_real(case)
+    elif case.get('server'):
+        obs = _run_server(case)
     else:
         obs = _run_fake(case)
-    if obs.get('init_exc') is None:
+    if obs.get('init_exc') is None and obs.get('run_exc') is None:
         try:
             obs['gal'] = _encode(case, obs)
         except Exception as e:     # reported by encode()
@@ -144,6 +169,204 @@ def _run_fake(case):
         return obs
     finally:
         D.socket, D.get_version = saved
+
+
+def _tcp_port_of(uri):
+    scheme, _, rest = uri.partition('://')
+    return int(rest) if scheme == 'tcp' else None
+
+
+def _run_server(case):
+    """the real Server.run (frappy/server.py) with fake interface classes: thread k of case['events'] = [[i, ok], ...]
+    lets the constructor of interface i return (ok) or raise (not ok), in exactly this order; interfaces without an
+    event stay inside their constructor until the harness releases them after the responder has finished.  The
+    start-up time-out is cut short by a MultiEvent subclass (it waits for the scripted events, then calls the real
+    wait with 10 ms).  _processCfg is stubbed (the node identity comes from the case).  The responder is the real
+    UDPListener on the fake socket module."""
+    import threading
+    import frappy.server as S
+    import frappy.protocol.discovery as D
+    from frappy.lib import mkthread as real_mkthread
+    from frappy.lib.multievent import MultiEvent
+
+    conf = list(case['configured'])
+    events = [(int(i), bool(ok)) for i, ok in case['events']]
+    pos = {}
+    for k, (i, ok) in enumerate(events):
+        if i in pos or not 0 <= i < len(conf):
+            raise ValueError('events: every interface thread at most once, index within the configured list')
+        pos[i] = (k, ok)
+    cond = threading.Condition()
+    st = {'fired': 0, 'next_idx': 0, 'problem': None}
+    release = threading.Event()
+    done = threading.Event()
+    fakes = []
+    tls = threading.local()
+    env = {'created': [], 'opts': [], 'bound': None, 'events': [], 'bufsizes': [], 'consumed': 0,
+           'script': case['dgrams'], 'exc': None}
+    env['open_tcp'] = lambda: sorted({int(f.uri.split('://')[1]) for f in list(fakes) if f.open and f.scheme == 'tcp'})
+    obs = {'init_exc': None, 'run_exc': None, 'server': True, 'handed': None, 'listener': False}
+
+    class FakeIface:
+        def __init__(self, scheme, logger, options, srv):
+            self.idx = getattr(tls, 'idx', None)
+            self.scheme = scheme
+            self.uri = options.pop('uri')
+            self.open = False
+            self._stop = threading.Event()
+            with cond:
+                fakes.append(self)
+            if self.idx not in pos:
+                release.wait(30)      # still in here when the start-up time-out expires
+                raise OSError('interface could not be opened')
+            k, ok = pos[self.idx]
+            with cond:
+                if not cond.wait_for(lambda: st["fired"] >= k, 10):
+                    st['problem'] = 'start-up sequence stuck'
+            if not ok:
+                raise OSError(98, 'Address already in use')
+            self.open = True          # bound and listening from now on
+
+        def __enter__(self):
+            return self
+
+        def __exit__(self, *a):
+            self.open = False         # server_close()
+            return False
+
+        def serve_forever(self):
+            self._stop.wait(60)
+
+        def shutdown(self):
+            self._stop.set()
+
+    class SeqMultiEvent(MultiEvent):
+        def get_trigger(self, timeout=None, name=None):
+            trig = super().get_trigger(timeout, name)
+
+            def fire():
+                trig()
+                with cond:
+                    st['fired'] += 1
+                    cond.notify_all()
+            return fire
+
+        def wait(self, timeout=None):
+            with cond:
+                if not cond.wait_for(lambda: st["fired"] >= len(events), 10):
+                    st['problem'] = 'scripted interface events did not happen'
+            if timeout is None and len(events) < len(conf):
+                timeout = 0.01        # instead of the 12 s of the server
+            return super().wait(timeout)
+
+    def my_mkthread(func, *args, **kwds):
+        if getattr(func, '__name__', '') == '_interfaceThread':
+            idx = st['next_idx']
+            st['next_idx'] += 1
+
+            def body(*a, **k):
+                tls.idx = idx
+                return func(*a, **k)
+        else:                         # the responder
+            def body(*a, **k):
+                try:
+                    return func(*a, **k)
+                except BaseException as e:
+                    env['exc'] = type(e).__name__
+                finally:
+                    done.set()
+        body.__module__ = func.__module__
+        body.__name__ = func.__name__
+        return real_mkthread(body, *args, **kwds)
+
+    def listener(eid, desc, ifaces, logger, **kw):
+        obs['handed'] = list(ifaces)
+        obs['registered'] = list(srv.interfaces)
+        obs['open_uris'] = [f.uri for f in list(fakes) if f.open]
+        obs['open_tcp'] = env['open_tcp']()
+        try:
+            lst = D.UDPListener(eid, desc, ifaces, logger, **kw)
+        except BaseException as e:
+            obs['init_exc'] = type(e).__name__
+            raise
+        obs['listener'] = True
+        obs.update(_listener_fields(lst))
+        return lst
+
+    class SecNode:
+        equipment_id = case['eid']
+        modules = {}
+
+        def get_secnode_property(self, name):
+            return case['desc'] if name == 'description' else None
+
+        def add_secnode_property(self, name, value):
+            obs['secnode_' + name] = value
+
+        def shutdown_modules(self):
+            pass
+
+    srv = S.Server.__new__(S.Server)
+    srv._testonly = False
+    srv._restart = True
+    srv.name = 'node'
+    srv.log = _Log()
+    srv.discovery = None
+    srv.interfaces = {}
+    srv.node_cfg = {'interface': conf[0]}
+    if len(conf) > 1 or case.get('secondary_key'):
+        srv.node_cfg['secondary'] = conf[1:]
+    srv.secnode = SecNode()
+    srv._processCfg = lambda: None
+    saved = (S.mkthread, S.get_class, S.UDPListener, S.MultiEvent, S.systemd, D.socket, D.get_version)
+    try:
+        S.mkthread = my_mkthread
+        S.get_class = lambda name: FakeIface
+        S.UDPListener = listener
+        S.MultiEvent = SeqMultiEvent
+        S.systemd = None
+        D.socket = _fake_socket_module(env)
+        D.get_version = lambda: case['version']
+
+        def target():
+            try:
+                srv.run()
+            except BaseException as e:
+                obs['run_exc'] = type(e).__name__
+            finally:
+                done.set()
+        th = threading.Thread(target=target, daemon=True)
+        th.start()
+        if not done.wait(60):
+            st['problem'] = 'neither the responder nor Server.run came to an end'
+        # the responder has dealt with the whole script (or never existed): stop the node
+        try:
+            srv.shutdown()
+        except BaseException as e:
+            obs['shutdown_exc'] = type(e).__name__
+        release.set()
+        for f in list(fakes):     # harness cleanup: an interface the server lost track of (configured twice)
+            f._stop.set()
+        th.join(30)
+        if th.is_alive():
+            st['problem'] = st['problem'] or 'Server.run does not end after shutdown'
+        if st['problem']:
+            raise RuntimeError('harness: ' + st['problem'])
+        obs['exc'] = env['exc']
+        obs['consumed'] = env['consumed']
+        obs['sends'] = env['events']
+        obs['bufsizes'] = sorted(set(env['bufsizes']))
+        obs['bound'] = env['bound']
+        obs['script'] = case['dgrams']
+        obs['threads'] = st['next_idx']
+        if not obs['listener']:
+            obs['open_tcp'] = obs.get('open_tcp', sorted({int(f.uri.split('://')[1]) for f in fakes
+                                                          if f.idx in pos and pos[f.idx][1] and f.scheme == 'tcp'}))
+            obs.update({'enabled': False, 'desc': '', 'fw': '', 'ports': []})
+        return obs
+    finally:
+        release.set()
+        (S.mkthread, S.get_class, S.UDPListener, S.MultiEvent, S.systemd, D.socket, D.get_version) = saved
 
 
 def _run_real(case):
@@ -317,8 +540,10 @@ def parse_summary(data):
         return 'PBad'
     try:
         v = json.loads(text)
-    except json.JSONDecodeError:
+    except ValueError:           # JSONDecodeError, or the int digit limit
         return 'PBad'
+    except BaseException:        # RecursionError: not a ValueError
+        return 'PRaise'
     if isinstance(v, str):
         return f'(PStr {gal.string(v)})'
     if isinstance(v, list):
@@ -336,6 +561,17 @@ def split_uri(u):
     return scheme, port
 
 
+def split_conf(u):
+    """a configured interface: <scheme>://<port> or a bare port (the server prepends tcp://)"""
+    if '://' in u:
+        scheme, port = split_uri(u)
+        return scheme, port
+    port = int(u)
+    if str(port) != u or port < 0:
+        raise ValueError(f'configured interface outside the modelled form: {u!r}')
+    return None, port
+
+
 def _dest(to):
     if to[0] == BCAST_IP:
         return f'(DBroadcast {gal.N(to[1])})'
@@ -346,8 +582,8 @@ def _status(obs):
     e = obs['exc']
     if e is None:
         return 'NotListening' if obs['consumed'] == 0 else 'Returned'
-    # since fix 8298523 nothing may escape run(); the model has no such state
-    raise ValueError(f'run() ended with an exception the model does not know: {e}')
+    # an exception left run(): the model says so only for a datagram on which json.loads raises no ValueError
+    return 'Killed' 
 
 
 def _encode(case, obs):
@@ -365,13 +601,25 @@ def _encode(case, obs):
         if ev['hex'] not in payloads:
             payloads.append(ev['hex'])
         sends.append(f'({_dest(ev["to"])}, {gal.nat(payloads.index(ev["hex"]))})')
-    ifaces = [split_uri(u) for u in case['ifaces']]
-    return ('{| k_eid := %s; k_version := %s; k_desc := %s; k_ifaces := %s; k_bcast := %s; k_dgrams := [%s];\n'
-            '   o_enabled := %s; o_desc := %s; o_fw := %s; o_ports := %s; o_payloads := %s; o_sends := [%s];\n'
-            '   o_status := %s; o_consumed := %s |}') % (
+    g_iface = lambda p: f'({gal.string(p[0])}, {gal.N(p[1])})'
+    if case.get('server'):
+        ifaces = []
+        conf = [split_conf(u) for u in case['configured']]
+        startup = '(Some (%s, %s))' % (
+            gal.lst(conf, lambda p: f'({gal.option(p[0], gal.string)}, {gal.N(p[1])})'),
+            gal.lst(case['events'], lambda e: f'({gal.nat(int(e[0]))}, {gal.boolean(bool(e[1]))})'))
+        handed = gal.option(obs['handed'], lambda l: gal.lst([split_uri(u) for u in l], g_iface))
+        bcast = False
+    else:
+        ifaces = [split_uri(u) for u in case['ifaces']]
+        startup, handed = 'None', 'None'
+        bcast = case['bcast'] and not case.get('real')
+    return ('{| k_eid := %s; k_version := %s; k_desc := %s; k_ifaces := %s; k_startup := %s; k_bcast := %s;\n'
+            '   k_dgrams := [%s];\n'
+            '   o_handed := %s; o_enabled := %s; o_desc := %s; o_fw := %s; o_ports := %s; o_payloads := %s;\n'
+            '   o_sends := [%s]; o_status := %s; o_consumed := %s |}') % (
         g_rl_str(case['eid']), g_rl_str(case['version']), gal.option(case['desc'], g_rl_str),
-        gal.lst(ifaces, lambda p: f'({gal.string(p[0])}, {gal.N(p[1])})'),
-        gal.boolean(case['bcast'] and not case.get('real')), '; '.join(dg),
+        gal.lst(ifaces, g_iface), startup, gal.boolean(bcast), '; '.join(dg), handed,
         gal.boolean(obs['enabled']), g_rl_str(obs['desc']), g_rl_str(obs['fw']), gal.lst(obs['ports'], gal.N),
         gal.lst([bytes.fromhex(h) for h in payloads], g_rl_bytes), '; '.join(sends),
         _status(obs), gal.nat(obs['consumed']))
@@ -380,6 +628,8 @@ def _encode(case, obs):
 def encode(case, obs):
     if obs.get('init_exc') is not None:
         raise ValueError('constructor raised ' + obs['init_exc'])
+    if obs.get('run_exc') is not None:
+        raise ValueError('Server.run raised ' + obs['run_exc'])
     if 'gal' not in obs:
         raise ValueError(obs.get('gal_error', 'not encoded'))
     return obs['gal']
@@ -419,8 +669,10 @@ def spec_is_request(data):
     try:
         v = json.loads(text, object_pairs_hook=lambda items: ('obj', items),
                        parse_constant=lambda c: odd.append(c))
-    except (ValueError, RecursionError):
+    except ValueError:
         return False
+    except RecursionError:
+        return None            # nested too deep for this reader: not decided here
     if odd:
         return None            # NaN / Infinity: accepted by CPython, not JSON
     if isinstance(v, tuple) and len(v) == 2 and v[0] == 'obj':
@@ -443,9 +695,23 @@ def oracle(case, obs):
     if obs.get('init_exc') is not None:
         fail('constructor-raised', f'UDPListener(...) raised {obs["init_exc"]}')
         return fails
+    if obs.get('run_exc') is not None:
+        fail('server-raised', f'Server.run raised {obs["run_exc"]}')
+        return fails
     bufsize = 1024
     desc0 = case['desc'] or ''
-    tcp_ports = [int(u.split('://', 1)[1]) for u in case['ifaces'] if u.split('://', 1)[0] == 'tcp']
+    if case.get('server'):
+        # the ports the node really listens on: tcp interfaces whose (fake) server object is open
+        tcp_ports = list(obs['open_tcp'])
+        if not obs['listener']:
+            asked = [i for i, item in enumerate(case['dgrams']) if 'hex' in item
+                     and spec_is_request(bytes.fromhex(item['hex'])) is True]
+            if tcp_ports and asked:
+                fail('no-responder', f'the node listens on tcp ports {tcp_ports} but Server.run created no discovery '
+                     f'responder: request {asked[0]} stays unanswered')
+            return fails
+    else:
+        tcp_ports = [int(u.split('://', 1)[1]) for u in case['ifaces'] if u.split('://', 1)[0] == 'tcp']
     disabled = obs['exc'] is None and obs['consumed'] == 0
     by_dgram = {}
     # ---- every datagram sent is a bounded, well-formed announcement of this node
@@ -464,8 +730,8 @@ def oracle(case, obs):
             fail('malformed', f'{where} is not a JSON object with SECoP=node')
             continue
         port = v.get('port')
-        if type(port) is not int or port not in tcp_ports:
-            fail('wrong-port', f'{where} carries port {port!r}, opened tcp ports are {tcp_ports}')
+        if type(port) is not int or port not in ev.get('open', tcp_ports):
+            fail('wrong-port', f'{where} carries port {port!r}, opened tcp ports are {ev.get("open", tcp_ports)}')
         fw = v.get('firmware')
         if v.get('equipment_id') != case['eid'] or not isinstance(fw, str) or not fw.endswith(case['version']):
             fail('identity', f'{where} does not carry the equipment id / firmware version')
@@ -535,16 +801,35 @@ FINDING_CLASSIFIERS = {
 
 
 def nontrivial_key(case, obs):
-    if obs.get('init_exc') is not None or (not obs['sends'] and not obs['consumed']):
+    if obs.get('init_exc') is not None or obs.get('run_exc') is not None:
         return None
-    return json.dumps([case['eid'], case['version'], case['desc'], case['ifaces'], case['bcast'], case['dgrams'],
-                       bool(case.get('real'))], sort_keys=True)
+    if not obs['sends'] and not obs['consumed'] and not case.get('events'):
+        return None
+    key = json.dumps([case['eid'], case['version'], case['desc'], case.get('ifaces'), case.get('bcast'),
+                      case.get('configured'), case.get('events'), case['dgrams'], bool(case.get('real'))],
+                     sort_keys=True)
+    if len(key) > 400:       # very long datagrams: the digest is as distinct as the text
+        import hashlib
+        key = hashlib.sha256(key.encode()).hexdigest()
+    return key
 
 
 def outcome_labels(case, obs):
     if obs.get('init_exc') is not None:
         return ['constructor-raised']
-    labs = {'enabled' if obs['enabled'] else 'disabled'}
+    if obs.get('run_exc') is not None:
+        return ['server-raised']
+    labs = set()
+    if case.get('server'):
+        labs.add('server-run')
+        done = {int(i): bool(ok) for i, ok in case['events']}
+        for i in range(len(case['configured'])):
+            labs.add('iface:' + ('hanging-at-time-out' if i not in done else 'opened' if done[i] else 'failed'))
+        if len(set(case['configured'])) < len(case['configured']):
+            labs.add('iface:configured-twice')
+        if not obs['listener']:
+            return sorted(labs | {'no-responder-created'})
+    labs.add('enabled' if obs['enabled'] else 'disabled')
     if obs['desc'] != (case['desc'] or ''):
         labs.add('description-truncated')
     labs.add('ended:' + (obs['exc'] or ('not-listening' if obs['consumed'] == 0 else 'socket-closed')))
@@ -557,6 +842,10 @@ def outcome_labels(case, obs):
         labs.add('dgram:request' if v else 'dgram:ambiguous' if v is None else 'dgram:other')
         if len(data) > 1024:
             labs.add('dgram:oversized')
+        depth = max(data.count(b'['), data.count(b'{'))
+        if depth >= 64:
+            labs.add('dgram:nested>=limit' if depth >= json_limit() else
+                     'dgram:nested>=recv-size' if depth >= 1024 else 'dgram:nested')
     if any(ev['i'] >= 0 for ev in obs['sends']):
         labs.add('answered')
     if any(ev['i'] < 0 for ev in obs['sends']):
@@ -569,6 +858,12 @@ def outcome_labels(case, obs):
 def sample_repr(case, obs):
     o = {k: v for k, v in obs.items() if k not in ('gal',)}
     c = dict(case)
+    if any(len(d.get('hex', '')) > 200 for d in c['dgrams']):
+        short = lambda d: dict(d, hex=d['hex'][:60] + f'...({len(d["hex"]) // 2} bytes)') \
+            if len(d.get('hex', '')) > 200 else d
+        c['dgrams'] = [short(d) for d in c['dgrams']]
+        if 'script' in o:
+            o['script'] = [short(d) for d in o['script']]
     for k in ('eid', 'version', 'desc'):
         if c.get(k) and len(c[k]) > 60:
             c[k] = c[k][:40] + f'...({len(c[k])} code points)'
@@ -695,6 +990,28 @@ OVERSIZED = [
 ]
 
 
+def nested_catalogue(huge=False):
+    """deeply nested and very long datagrams around the receive size of the code (1024) and around the nesting limit
+    of json.loads measured on this interpreter (a band of 24 levels around the limit itself is left out)"""
+    T, R, band = json_limit(), 1024, 24
+    deep, shallow = T + band, T - band
+    res = [b'[' * k for k in (R - 1, R, R + 1, shallow, deep, 2 * T)]
+    res += [
+        b'{"a":' * deep, b'{"a":' * 300, b'[{"a":' * (deep // 2 + 1), b'[' * shallow + b']' * shallow,
+        b'[' * deep + b']' * deep, b'{"a":' * shallow + b'1' + b'}' * shallow,
+        REQ[:-1] + b',"x":' + b'[' * 400 + b']' * 400 + b'}',          # a request that fits into 1024 bytes
+        REQ[:-1] + b',"x":' + b'[' * 600 + b']' * 600 + b'}',          # a request cut inside the nesting
+        REQ[:-1] + b',"x":' + b'[' * deep + b']' * deep + b'}',        # a request nested beyond the limit
+        b' ' * 1020 + b'[' * deep,                                     # the brackets start at the cut
+        b'[' * 1000 + b'\xff', b'[' * deep + b'\xff', b'\xff' + b'[' * deep,
+        b'7' * 5000, b'-' + b'7' * 4400, b'"' + b'a' * 3000 + b'"', b' ' * 2000 + REQ, REQ + b' ' * 3000,
+        b'[' * 600 + b'"\xe2\x82\xac"' + b']' * 600,
+    ]
+    if huge:
+        res += [b'[' * 60000, b'{"a":' * 12000, REQ + b' ' * 60000, b'[1,' * 20000, b'[' * 30000 + b']' * 30000]
+    return [d for d in res if len(d) <= 65000]
+
+
 def _rand_bytes(rng):
     return bytes(rng.randrange(256) for _ in range(rng.randint(1, 12)))
 
@@ -729,7 +1046,7 @@ def gen_dgrams(rng, hostile=True):
         elif k < 0.74:
             data = _rand_jsonish(rng)
         elif k < 0.80:
-            data = rng.choice(OVERSIZED)
+            data = rng.choice(OVERSIZED + nested_catalogue())
         elif not hostile:
             data = rng.choice(REQUESTS + OTHER_OBJECTS)
         elif k < 0.88:
@@ -771,7 +1088,7 @@ def exhaustive_cases():
     every cut position around the limit"""
     res = []
     follow = {'hex': REQ.hex(), 'from': 1}
-    for data in REQUESTS + OTHER_OBJECTS + OTHER_JSON + BAD_JSON + BAD_UTF8 + OVERSIZED:
+    for data in REQUESTS + OTHER_OBJECTS + OTHER_JSON + BAD_JSON + BAD_UTF8 + OVERSIZED + nested_catalogue(huge=True):
         res.append({'eid': 'eq', 'version': 'v1', 'desc': 'd', 'ifaces': ['tcp://10767', 'tcp://9'], 'bcast': False,
                     'dgrams': [{'hex': data.hex(), 'from': 0}, follow]})
     budget = LIMIT - 85 - len('eq') - len('v1')
@@ -783,6 +1100,59 @@ def exhaustive_cases():
                     n = max(0, (budget + delta) // per)
                     res.append({'eid': 'eq', 'version': 'v1', 'desc': lead + ch * n + 'zz', 'ifaces': ['tcp://65535'],
                                 'bcast': True, 'dgrams': [follow]})
+    return res
+
+
+def server_case(rng):
+    """Server.run: 1-4 configured interfaces; a random order of the interface threads, each opens / fails / is still
+    inside its constructor at the time-out"""
+    n = rng.choice([1, 2, 2, 3, 3, 4])
+    ports = rng.sample(PORTS + [rng.randint(1, 65535), rng.randint(1, 65535)], n)
+    conf = []
+    for p in ports:
+        k = rng.random()
+        conf.append(f'tcp://{p}' if k < 0.6 else str(p) if k < 0.8 else f'ws://{p}')
+    if n > 1 and rng.random() < 0.08:
+        conf[-1] = conf[0]                 # the same interface configured twice
+    order = list(range(n))
+    rng.shuffle(order)
+    events = []
+    bound = set()
+    for i in order:
+        k = rng.random()
+        if k < 0.5:
+            # an address can be bound once: the second interface thread for the same uri fails
+            events.append([i, conf[i] not in bound])
+            bound.add(conf[i])
+        elif k < 0.75:
+            events.append([i, False])
+    if rng.random() < 0.3:
+        eid, version, desc = gen_strings(rng)
+    else:
+        eid, version, desc = 'node.' + (_rand_short(rng, 6) or 'x'), 'v1', rng.choice([None, '', 'a demo node', 'd\u00e9mo \u20ac'])
+    dgrams = [{'hex': REQ.hex(), 'from': rng.randrange(len(ADDRS))}] + gen_dgrams(rng)[:3]
+    rng.shuffle(dgrams)
+    return {'server': True, 'eid': eid, 'version': version, 'desc': desc, 'configured': conf, 'events': events,
+            'dgrams': dgrams}
+
+
+def server_sweep():
+    """every combination of opened / failed / hanging for 1-3 interfaces, the threads finishing in configured and in
+    reverse order"""
+    import itertools
+    res = []
+    follow = {'hex': REQ.hex(), 'from': 1}
+    for n in (1, 2, 3):
+        conf = [['tcp://10767'], ['tcp://10767', '10768'], ['ws://8010', 'tcp://10767', '9']][n - 1]
+        for outcome in itertools.product('ofh', repeat=n):
+            for rev in (False, True):
+                idx = [i for i in range(n) if outcome[i] != 'h']
+                if rev:
+                    if len(idx) < 2:
+                        continue
+                    idx.reverse()
+                res.append({'server': True, 'eid': 'eq', 'version': 'v1', 'desc': 'd', 'configured': conf,
+                            'events': [[i, outcome[i] == 'o'] for i in idx], 'dgrams': [follow]})
     return res
 
 
@@ -802,6 +1172,8 @@ def gen_cases(seed, tier):
     n = {'quick': 3000, 'thorough': 40000, 'search': 40000}[tier]
     cases = [rand_case(rng) for _ in range(n)]
     cases.extend(exhaustive_cases())
+    cases.extend(server_sweep())
+    cases.extend(server_case(rng) for _ in range({'quick': 260, 'thorough': 4000, 'search': 4000}[tier]))
     if tier != 'quick':
         cases.extend(real_cases(rng, 400))
     else:
@@ -813,11 +1185,28 @@ def shrink(case):
     dg = case['dgrams']
     for i in range(len(dg) - 1, -1, -1):
         yield dict(case, dgrams=dg[:i] + dg[i + 1:])
-    if len(case['ifaces']) > 1:
-        for i in range(len(case['ifaces'])):
-            yield dict(case, ifaces=case['ifaces'][:i] + case['ifaces'][i + 1:])
-    if case['bcast']:
-        yield dict(case, bcast=False)
+    if case.get('server'):
+        conf, evs = case['configured'], case['events']
+        if len(conf) > 1:
+            for i in range(len(conf)):         # drop interface i together with its event
+                yield dict(case, configured=conf[:i] + conf[i + 1:],
+                           events=[[j - (j > i), ok] for j, ok in evs if j != i])
+        for k in range(len(evs)):              # a failing interface instead of an opened one / of a hanging one
+            if evs[k][1]:
+                yield dict(case, events=evs[:k] + [[evs[k][0], False]] + evs[k + 1:])
+        if evs != sorted(evs):
+            yield dict(case, events=sorted(evs))
+    else:
+        if len(case['ifaces']) > 1:
+            for i in range(len(case['ifaces'])):
+                yield dict(case, ifaces=case['ifaces'][:i] + case['ifaces'][i + 1:])
+        if case['bcast']:
+            yield dict(case, bcast=False)
+    for i, item in enumerate(dg):              # a long datagram: half of it, or its essential prefix
+        h = item.get('hex', '')
+        if len(h) > 64:
+            for cut in (len(h) // 4 * 2, len(h) - 2):
+                yield dict(case, dgrams=dg[:i] + [dict(item, hex=h[:cut])] + dg[i + 1:])
     for k in ('desc', 'eid', 'version'):
         s = case[k]
         if s:
